@@ -121,6 +121,8 @@ def shards(tier, seed):
     cidx0 = core_rules(universe())
     for i in cidx0:
         out.append(('removed', i, None))
+    for ri in range(len(SEQ_ROUTERS)):
+        out.append(('lookupseq', ri, None))
     for i in range(len(u)):
         out.append(('pairs', i, None))
     cidx = core_rules(u)
@@ -144,7 +146,7 @@ def bounds(tier, seed):
             'path_generators': 'instantiation with ' + repr(rr.WILD_VALUES) + ', perturbations, all strings over {a,b,1,/,CR} <= 4 (3 for triples)'}
 
 
-FLOORS = {'hooknames_calls': 100, 'multi_match': 1000, 'not_found': 1000, 'matched': 1000, 'routers': 1000, 'flavour_texts': 100, 'wsgi_calls': 500,
+FLOORS = {'lookup_sequences': 1000, 'hooknames_calls': 100, 'multi_match': 1000, 'not_found': 1000, 'matched': 1000, 'routers': 1000, 'flavour_texts': 100, 'wsgi_calls': 500,
           'rejected_sets': 1}
 
 
@@ -252,12 +254,78 @@ def check_set(res, rmod, u, idxs, nstr, orders=True):
                                    sig=sig_for(p, got, exp))
 
 
+# ---- one router answering lookups one after the other (some of them fail inside a filter) --------------------------------------
+HUGE = '7' * 4400          # more digits than int() converts: the int filter's conversion raises while the tree is being walked
+SEQ_ROUTERS = [
+    [(L('hello/'), W('name')), (L('n/'), W('x', 'int'))],
+    [(L('n/'), W('x', 'int'), L('/t')), (L('m/'), W('y', 're', r'\d+'), L('/u')), (W('p', 'path'),)],
+    [(W('a'), L('/'), W('b', 'int')), (L('hello/world'),)],
+]
+SEQ_PATHS = ['hello/world', 'n/' + HUGE, 'n/12', 'n/' + HUGE + '/t', 'm/' + HUGE + '/u', 'hello/' + HUGE, 'n/x', 'zzz']
+
+
+def expect_or_raise(rules, path):
+    try:
+        return expect(rules, path)
+    except ValueError:
+        return 'RAISES'
+
+
+def seq_problem(rmod, rules, seq):
+    """the lookups of `seq` on one router, in this order -> None | (index, text)"""
+    router, handlers, err = build(rmod, rules)
+    if err:
+        return (0, f'rules rejected: {err}')
+    for i, path in enumerate(seq):
+        exp = expect_or_raise(rules, path)
+        got = observe(router, path)
+        if exp == 'RAISES':
+            # the conversion of a matching filter cannot be done: an exception or "not found" - never another route's answer
+            if got is None or got[0] == 'EXC':
+                continue
+            return (i, f'lookup #{i + 1} resolve({short(path)!r}) gives {short_obs(got)!r} although the only matching rule cannot convert the value')
+        if not same(got, exp):
+            return (i, f'lookup #{i + 1} resolve({short(path)!r}) gives {short_obs(got)!r}; the reference gives {short_obs(exp)!r}')
+    return None
+
+
+def short(path):
+    return path.replace(HUGE, '<4400 digits>')
+
+
+def short_obs(o):
+    return eval(repr(o).replace(HUGE, '<4400 digits>')) if o is not None else None
+
+
+def work_lookupseq(res, rmod, ri):
+    rules = SEQ_ROUTERS[ri]
+    c = res['counters']
+    for seq in itertools.product(range(len(SEQ_PATHS)), repeat=3):
+        paths = [SEQ_PATHS[i] for i in seq]
+        res['states'] += 1
+        res['transitions'] += 3
+        c['lookup_sequences'] += 1
+        if any(HUGE in p for p in paths):
+            res['nontrivial'] += 1
+        pr = seq_problem(rmod, rules, paths)
+        res['outcomes'].add('lookup sequence ' + ('ok' if pr is None else 'DIFF'))
+        if pr is not None:
+            core.add_violation(res, {'kind': 'lookupseq', 'router': ri, 'seq': list(seq)},
+                               f'one router with the rules {[rr.default_text(r) for r in rules]} answers the lookups {[short(p) for p in paths]} in this order: {pr[1]}',
+                               sig='lookup-sequence')
+    core.add_sample(res, {'lookup_sequences_on_one_router': [rr.default_text(r) for r in rules], 'paths': [short(p) for p in SEQ_PATHS], 'length': 3})
+
+
 def work(spec):
     kind, a, b = spec
     res = core.new_result()
     rmod = _router_mod()
     u = universe()
     c = res['counters']
+    if kind == 'lookupseq':
+        work_lookupseq(res, rmod, a)
+        res['execs'] = res['transitions']
+        return res
     if kind == 'single':
         for i in range(len(u)):
             check_set(res, rmod, u, [i], 4)
@@ -526,6 +594,13 @@ def _ast(a):
 def replay(case):
     rmod = _router_mod()
     kind = case['kind']
+    if kind == 'lookupseq':
+        rules = SEQ_ROUTERS[case['router']]
+        paths = [SEQ_PATHS[i] for i in case['seq']]
+        pr = seq_problem(rmod, rules, paths)
+        if pr is None:
+            return None
+        return f'one router with the rules {[rr.default_text(r) for r in rules]} answers the lookups {[short(p) for p in paths]} in this order: {pr[1]}'
     if kind == 'samemask':
         sut.load(fresh=True)
         rmod = sut.sub('router.radirouter')
